@@ -19,8 +19,10 @@ VARIABLES
   l,        \* next line to consume
   calls,    \* [call id -> [c, st, res]]
   runinfo,  \* [run, invs, probeIds, frozen]
-  viol      \* names of the predicates violated so far in this run
-ovars == <<nodeVars, l, calls, runinfo, viol>>
+  viol,     \* [pre, post]: names of the predicates violated so far in this run,
+            \*   before / after the first known-finding pattern occurred in it
+  kf        \* known-finding patterns seen so far in this run (see KfTags)
+ovars == <<nodeVars, l, calls, runinfo, viol, kf>>
 
 Has(r, f) == f \in DOMAIN r
 
@@ -32,7 +34,8 @@ Init ==
   /\ l = 1
   /\ calls = <<>>
   /\ runinfo = [run |-> 0, invs |-> <<>>, probeIds |-> {}, frozen |-> {}]
-  /\ viol = {}
+  /\ viol = [pre |-> {}, post |-> {}]
+  /\ kf = {}
 
 ---------------------------------------------------------------------------
 (* trace line -> records of Node/Props                                      *)
@@ -122,11 +125,33 @@ Judged(line) ==
 
 Violated(line) == LET j == Judged(line) IN {p \in DOMAIN j : ~j[p]}
 
+(* Known-finding patterns (DESIGN.md section 11): the specific call site and  *)
+(* fault after which a violation is a recorded finding, not a new one.        *)
+(*   K2  fetch_payment_info (listdatastore) returned an error                 *)
+(*   K1  wait_payment returned an error while the stored state was Pending:   *)
+(*       the lifecycle hits todo!() (panic item at that very delivery)        *)
+(*   K3  wait_payment returned an error inside pay(): propagated as failure   *)
+KfTags(line) ==
+  IF line.ev = "deliver" /\ line.call \in DOMAIN calls /\ calls[line.call].res.r = "error"
+  THEN IF line.kind = "listds" THEN {"K2"}
+       ELSE IF line.kind \in {"lists", "wait"}
+            THEN IF \E k \in Items(line, "panic") : line.out[k].loc = "htlc_manager.rs:todo" THEN {"K1"} ELSE {"K3"}
+       ELSE {}
+  ELSE {}
+
+\* accumulate: a violation first seen once a pattern is present goes to `post`
+Acc(line, extra) ==
+  LET k1 == kf \cup KfTags(line)
+      v == Violated(line) \cup extra IN
+  /\ kf' = k1
+  /\ viol' = IF k1 = {} THEN [viol EXCEPT !.pre = @ \cup v]
+             ELSE [viol EXCEPT !.post = @ \cup (v \ viol.pre)]
+
 ---------------------------------------------------------------------------
 Step(line, ev, re) ==
   /\ NodeStep(ev, re)
   /\ calls' = CallsAfter(line, calls)
-  /\ viol' = viol \cup Violated(line)
+  /\ Acc(line, {})
   /\ UNCHANGED runinfo
 
 Line == Rec[l]
@@ -136,7 +161,8 @@ DoReset ==
   /\ NodeReset(Line.cfg)
   /\ calls' = <<>>
   /\ runinfo' = [run |-> Line.run, invs |-> Line.invs, probeIds |-> {}, frozen |-> {}]
-  /\ viol' = {}
+  /\ viol' = [pre |-> {}, post |-> {}]
+  /\ kf' = {}
 
 DoHtlc ==
   /\ Line.ev = "htlc"
@@ -149,14 +175,14 @@ DoExec ==
      /\ NodeStep([t |-> "exec", c |-> c, fault |-> Line.fault], Reaction(Line))
      /\ calls' = [CallsAfter(Line, calls) EXCEPT ![Line.call] =
                      [@ EXCEPT !.st = IF c.kind = "pay" THEN "running" ELSE "executed", !.res = NormRes(c, Line.res)]]
-     /\ viol' = viol \cup Violated(Line) \cup (IF ok THEN {} ELSE {"TOOL"})
+     /\ Acc(Line, IF ok THEN {} ELSE {"TOOL"})
      /\ UNCHANGED runinfo
 
 DoDeliver ==
   /\ Line.ev = "deliver"
   /\ NodeStep([t |-> "deliver", c |-> CallRec(Line), res |-> calls[Line.call].res], Reaction(Line))
   /\ calls' = [CallsAfter(Line, calls) EXCEPT ![Line.call].st = "delivered"]
-  /\ viol' = viol \cup Violated(Line)
+  /\ Acc(Line, {})
   /\ UNCHANGED runinfo
 
 DoPayPart ==
@@ -172,10 +198,9 @@ DoPayReturn ==
   /\ Line.ev = "payreturn"
   /\ NodeStep([t |-> "payreturn", hash |-> Line.hash, outcome |-> Line.outcome], Reaction(Line))
   /\ calls' = [CallsAfter(Line, calls) EXCEPT ![Line.call] = [@ EXCEPT !.st = "executed", !.res = [r |-> Line.outcome]]]
-  /\ viol' = viol \cup Violated(Line)
-       \* E4 is the harness's obligation
-       \cup (IF (Line.outcome = "complete" /\ ~Completed(Line.hash)) \/ (Line.outcome = "failed" /\ Live(Line.hash))
-             THEN {"TOOL"} ELSE {})
+  /\ Acc(Line, \* E4 is the harness's obligation
+          IF (Line.outcome = "complete" /\ ~Completed(Line.hash)) \/ (Line.outcome = "failed" /\ Live(Line.hash))
+          THEN {"TOOL"} ELSE {})
   /\ UNCHANGED runinfo
 
 DoTick ==
@@ -190,7 +215,7 @@ DoCrash ==
   /\ Line.ev = "crash"
   /\ NodeStep([t |-> "crash", lost |-> Range(Line.lost)], Reaction(Line))
   /\ calls' = <<>>
-  /\ viol' = viol \cup Violated(Line)
+  /\ Acc(Line, {})
   /\ UNCHANGED runinfo
 
 \* direct calls of the provider (Engine A-prov)
@@ -203,8 +228,7 @@ DoDrained ==
   /\ NodeStep([t |-> "drained"], Reaction(Line))
   /\ calls' = CallsAfter(Line, calls)
   /\ LET fr == IF Has(Line, "frozen") THEN Range(Line.frozen) ELSE {} IN
-     viol' = viol \cup Violated(Line)
-               \cup (IF AllAnswered(fr) THEN {} ELSE IF fr = {} THEN {"C06"} ELSE {"C14"})
+     Acc(Line, IF AllAnswered(fr) THEN {} ELSE IF fr = {} THEN {"C06"} ELSE {"C14"})
   /\ UNCHANGED runinfo
 
 DoProbe ==
@@ -212,16 +236,19 @@ DoProbe ==
   /\ NodeStep([t |-> "probe"], Reaction(Line))
   /\ calls' = calls
   /\ runinfo' = [runinfo EXCEPT !.probeIds = @ \cup Range(Line.ids)]
-  /\ viol' = viol
+  /\ UNCHANGED <<viol, kf>>
 
 \* end of run: C09 (some probe set was settled with the right preimage), report
 DoEnd ==
   /\ Line.ev = "end"
   /\ LET c09 == runinfo.probeIds = {} \/ cfg.mpp = 0 \/   \* (a zero MPP timeout accepts no payment at all)
                 \E i \in runinfo.probeIds : i \in DOMAIN htlc /\ htlc[i].resp.r = "resolve" /\ htlc[i].resp.key = htlc[i].hash
-         v == viol \cup (IF c09 THEN {} ELSE {"C09"})
-     IN /\ (v # {} => PrintT(<<"RUNVIOL", Line.run, v>>))
-        /\ viol' = {}
+         extra == IF c09 THEN {} ELSE {"C09"}
+         pre == IF kf = {} THEN viol.pre \cup extra ELSE viol.pre
+         post == IF kf = {} THEN viol.post ELSE viol.post \cup (extra \ viol.pre)
+     IN /\ (pre \cup post # {} => PrintT(<<"RUNVIOL", Line.run, pre, post, kf>>))
+        /\ viol' = [pre |-> {}, post |-> {}]
+        /\ kf' = {}
   /\ NodeStep([t |-> "end"], NoReaction)
   /\ UNCHANGED <<calls, runinfo>>
 
